@@ -1,18 +1,120 @@
-"""Deliberate, test-suite-preserving breakages used to confirm that the monitors fire."""
+"""Deliberate, test-suite-preserving breakages used to confirm that the monitors fire.
+
+Three kinds: textual replacement (file/old/new), re-introduction of a repaired defect (revert = subject prefix of the fix
+commit in /repo) and seeded changes written by independent sub-agents (patch = /verif/seeded/<id>/patch.diff)."""
+import glob
+import json
+import os
+
 MR = "basic_robotics/modern_robotics_numba/modern_high_performance.py"
+FH = "basic_robotics/general/faser_high_performance.py"
 PP = "basic_robotics/path_planning/pathplanner.py"
+TM = "basic_robotics/general/faser_transform.py"
+FG = "basic_robotics/general/faser_general.py"
+BH = "basic_robotics/general/basic_helpers.py"
+SC = "basic_robotics/general/faser_screw.py"
+WR = "basic_robotics/general/faser_wrench.py"
+ARM = "basic_robotics/kinematics/arm_model.py"
+SP = "basic_robotics/kinematics/sp_model.py"
+RB = "basic_robotics/kinematics/robot_model.py"
+CC = "basic_robotics/interfaces/comms_core.py"
+DS = "basic_robotics/utilities/disp.py"
 
 MUTANTS = [
+    # ---- C01 / C02 -------------------------------------------------------------------------------------------------
     dict(id="nearzero_1e-5", file=MR, props=["C01"], desc="NearZero threshold 1e-6 -> 1e-5",
          old="    return abs(z) < 1e-6\n", new="    return abs(z) < 1e-5\n"),
-    dict(id="transinv_sign", file=MR, props=["C01"], desc="TransInv drops the minus sign of -R^T p",
+    dict(id="transinv_sign", file=MR, props=["C01", "C02"], desc="TransInv drops the minus sign of -R^T p",
          old="    rarr[0:3, 3] = -1 * tdot\n", new="    rarr[0:3, 3] = tdot\n"),
-    dict(id="adjoint_blocks", file=MR, props=["C01"], desc="Adjoint puts [p]R in the upper-right block",
+    dict(id="adjoint_blocks", file=MR, props=["C01", "C02"], desc="Adjoint puts [p]R in the upper-right block",
          old="    rarr[3:6, 0:3] = vs3 @ R\n", new="    rarr[0:3, 3:6] = vs3 @ R\n"),
-    dict(id="log3_halfturn_branch", file=MR, props=["C01"], desc="MatrixLog3 half-turn: second branch uses column 0 pattern",
-         old="                  * np.array([R[0][1], 1 + R[1][1], R[2][1]]))", new="                  * np.array([R[0][1], 1 + R[1][1], R[1][2]]))"),
-    dict(id="exp6_translation_coeff", file=MR, props=["C01"], desc="MatrixExp6: (theta - sin) -> (theta - cos)",
-         old="(theta - np.sin(theta))* np.dot(omgmat, omgmat)", new="(theta - np.sin(theta)) * 0.999999 * np.dot(omgmat, omgmat)"),
+    dict(id="log3_halfturn_branch", file=MR, props=["C01"], desc="MatrixLog3 half-turn: second branch reads R[2][0] instead of R[2][1]",
+         old="                  * np.array([R[0][1], 1 + R[1][1], R[2][1]]))", new="                  * np.array([R[0][1], 1 + R[1][1], R[2][0]]))"),
+    dict(id="exp6_translation_coeff", file=MR, props=["C01", "C02"], desc="MatrixExp6: translation term scaled by 0.999999",
+         old="(theta - np.sin(theta))* np.dot(omgmat, omgmat)", new="(theta - np.sin(theta)) * 0.99999 * np.dot(omgmat, omgmat)"),
+    dict(id="log6_vterm", file=MR, props=["C01", "C02"], desc="MatrixLog6: omgmat/2 term has the wrong sign",
+         old="        lterm = (np.eye(3) - omgmat / 2.0 +", new="        lterm = (np.eye(3) + omgmat / 2.0 +"),
+    dict(id="jacobian_space_offbyone", file=MR, props=["C02", "C06"], desc="JacobianSpace loop uses thetalist[i] instead of [i-1]",
+         old="        sSe3 = VecTose3(Slist[0:6, i-1] * thetalist[i - 1])", new="        sSe3 = VecTose3(Slist[0:6, i-1] * thetalist[i])"),
+    dict(id="invdyn_drop_ad_term", file=MR, props=["C02", "C08"], desc="InverseDynamics drops the ad(V) A thetadot acceleration term",
+         old="                       + np.dot(ad(Vi[:, i + 1]), Ai[:, i]) * dthetalist[i]", new="                       + 0 * np.dot(ad(Vi[:, i + 1]), Ai[:, i]) * dthetalist[i]"),
+    dict(id="quintic_coeff", file=MR, props=["C02"], desc="QuinticTimeScaling coefficient 15 -> 14",
+         old="    return 10 * (1.0 * t / Tf) ** 3 - 15 * (1.0 * t / Tf) ** 4 \\\n", new="    return 10 * (1.0 * t / Tf) ** 3 - 14 * (1.0 * t / Tf) ** 4 \\\n"),
+    dict(id="ikinbody_tolerance_swap", file=MR, props=["C02"], desc="IKinBody tests the linear part against eomg",
+         old="    err = Norm([Vb[0], Vb[1], Vb[2]]) > eomg \\\n          or Norm([Vb[3], Vb[4], Vb[5]]) > ev\n    while err and i < maxiterations:",
+         new="    err = Norm([Vb[0], Vb[1], Vb[2]]) > ev \\\n          or Norm([Vb[3], Vb[4], Vb[5]]) > eomg\n    while err and i < maxiterations:"),
+    # ---- C03 / C04 / C14 (tm) -------------------------------------------------------------------------------------
+    dict(id="tm_set_no_refresh", file=TM, props=["C03"], desc="tm.set() forgets to rebuild the matrix",
+         old="        self.TAA[ind] = val\n        self.TAAtoTM()\n        return self\n", new="        self.TAA[ind] = val\n        return self\n"),
+    dict(id="tm_setquat_no_taa", file=TM, props=["C03", "C04"], desc="setQuat does not refresh the six-vector",
+         old="        self.TM[0:3, 0:3] = R.from_quat(quaternion).as_matrix()\n        self.TMtoTAA()\n", new="        self.TM[0:3, 0:3] = R.from_quat(quaternion).as_matrix()\n"),
+    dict(id="tm_setitem_slice_col", file=TM, props=["C03"], desc="__setitem__ with a (3,1) value skips the matrix refresh",
+         old="        if isinstance(val, np.ndarray) and val.shape == ((3, 1)):\n            self.TAA[ind] = val\n",
+         new="        if isinstance(val, np.ndarray) and val.shape == ((3, 1)):\n            self.TAA[ind] = val\n            return\n"),
+    dict(id="tm_inv_transpose", file=TM, props=["C04", "C03"], desc="inv() uses the transpose of the homogeneous matrix",
+         old="        TM = mr.TransInv(self.TM)\n        return tm(TM)", new="        TM = mr.TransInv(self.TM)\n        TM[0:3, 3] = -self.TM[0:3, 3]\n        return tm(TM)"),
+    dict(id="tm_gtm_no_copy", file=TM, props=["C14"], desc="gTM() returns the internal matrix",
+         old="        return np.copy(self.TM)\n", new="        return self.TM\n"),
+    dict(id="tm_copy_shares_taa", file=TM, props=["C14"], desc="copy() shares the six-vector buffer",
+         old="        copy.TAA = np.copy(self.TAA)\n", new="        copy.TAA = self.TAA\n"),
+    dict(id="tm_rpy_order", file=TM, props=["C04"], desc="rpy constructor composes Rz Ry Rx instead of Rx Ry Rz (6-element form)",
+         old="            temp_init =  tm([0, 0, 0, initializer_array[3],0, 0])\n            temp_init = temp_init @ tm([0, 0, 0, 0, initializer_array[4], 0])\n            temp_init = temp_init @ tm([0, 0, 0, 0, 0, initializer_array[5]])\n",
+         new="            temp_init =  tm([0, 0, 0, 0, 0, initializer_array[5]])\n            temp_init = temp_init @ tm([0, 0, 0, 0, initializer_array[4], 0])\n            temp_init = temp_init @ tm([0, 0, 0, initializer_array[3],0, 0])\n"),
+    dict(id="l2g_wrong_order", file=MR, props=["C04", "C03", "C12"], desc="LocalToGlobal composes rotations in the wrong order",
+         old="    rod = so3ToVec(MatrixLog3(rodRefRod @ trod))", new="    rod = so3ToVec(MatrixLog3(trod @ rodRefRod))"),
+    # ---- C12 -------------------------------------------------------------------------------------------------------
+    dict(id="wrench_changeframe_no_transpose", file=WR, props=["C12", "C11"], desc="Wrench.changeFrame forgets the transpose of the adjoint",
+         old="        self.data = frame_transition.adjoint().T @ self.data", new="        self.data = frame_transition.adjoint() @ self.data"),
+    dict(id="screw_add_mixed_frames", file=SC, props=["C12"], desc="Screw.__add__ skips the frame change of the right operand",
+         old="                local_frame_other = other_object.copy().changeFrame(self.frame_applied)\n                return Screw(self.data + local_frame_other.data, self.frame_applied.copy())",
+         new="                local_frame_other = other_object.copy()\n                return Screw(self.data + local_frame_other.data, self.frame_applied.copy())"),
+    dict(id="screw_truediv_np", file=SC, props=["C12"], desc="Screw / k multiplies for NumPy float scalars subclassing float",
+         old="            return Screw(self.data / other_object, self.frame_applied.copy())\n        return self.data / other_object",
+         new="            return Screw(self.data / other_object, self.frame_applied.copy())\n        return self.data * other_object"),
+    # ---- C05 - C08, C13 (arm) -------------------------------------------------------------------------------------
+    dict(id="fk_no_clamp_upper", file=ARM, props=["C05"], desc="thetaProtector does not clamp the upper limit",
+         old="            theta[np.where(theta>self.joint_maxs[0:theta_len])] = (\n                    self.joint_maxs[np.where(theta>self.joint_maxs[0:theta_len])])\n", new=""),
+    dict(id="move_keeps_old_base", file=ARM, props=["C05"], desc="initialize() forgets to store the new base pose",
+         old="        self._base_pos_global = base_pos_global.copy()\n\n    \"\"\"\n    Kinematics", new="\n    \"\"\"\n    Kinematics"),
+    dict(id="jacobian_body_wrong_frame", file=ARM, props=["C06", "C05"], desc="jacobianBody computes the body screws with the tool pose instead of its inverse",
+         old="            fmr.Adjoint(self._end_effector_home.inv().gTM()) @ self.screw_list)\n        return fmr.JacobianBody",
+         new="            fmr.Adjoint(self._end_effector_home.gTM()) @ self.screw_list)\n        return fmr.JacobianBody"),
+    dict(id="jacobian_eetrans_keeps_rotation", file=ARM, props=["C06"], desc="jacobianEETrans forgets to zero the rotation of the frame",
+         old="        end_effector_temp[3:6] = np.zeros(3)\n", new=""),
+    dict(id="linkmass_skips_last", file=ARM, props=["C06"], desc="staticForcesWithLinkMasses skips the last link's weight",
+         old="        for i in range(self.num_dof, 0, -1):\n            link_mass_cg", new="        for i in range(self.num_dof - 1, 0, -1):\n            link_mass_cg"),
+    dict(id="ik_success_without_fk", file=ARM, props=["C07", "C05"], desc="constrainedIK returns before storing the solution state",
+         old="            if self.fail_count != 0:\n                print('Success + ' + str(self.fail_count) + ' failures')\n            self.FK(theta_list)\n",
+         new="            if self.fail_count != 0:\n                print('Success + ' + str(self.fail_count) + ' failures')\n"),
+    dict(id="ik_constrained_no_clamp_low", file=FH, props=["C07"], desc="IKinSpaceConstrained does not clamp at the lower limit",
+         old="            if theta_list[j] < joint_mins[j]:\n                theta_list[j] = joint_mins[j]\n", new=""),
+    dict(id="massmatrix_skips_first_link", file=ARM, props=["C08"], desc="Arm.massMatrix skips link 0",
+         old="        for i in range(len(theta)):\n            Ji = self.jacobianLink(i, theta)", new="        for i in range(1, len(theta)):\n            Ji = self.jacobianLink(i, theta)"),
+    dict(id="coriolis_ignores_grav_arg", file=ARM, props=["C08"], desc="coriolisGravity ignores its gravity argument",
+         old="        h = self.inverseDynamics(theta, theta_dot, 0*theta, grav, np.zeros((6, 1)))[0]", new="        h = self.inverseDynamics(theta, theta_dot, 0*theta, None, np.zeros((6, 1)))[0]"),
+    dict(id="urdf_rpy_order", file=ARM, props=["C13"], desc="URDF joint origin composes roll before yaw",
+         old="                cg_origin_tm = cg_origin_tm @ tm([0, 0, 0, 0, 0, cg_origin_rpy[2]])\n                cg_origin_tm = cg_origin_tm @ tm([0, 0, 0, 0, cg_origin_rpy[1], 0])\n                #cg_origin_rpy[0], cg_origin_rpy[1], cg_origin_rpy[2]\n                cg_origin_tm = cg_origin_tm @ tm([0, 0, 0, cg_origin_rpy[0], 0, 0])",
+         new="                cg_origin_tm = cg_origin_tm @ tm([0, 0, 0, cg_origin_rpy[0], 0, 0])\n                cg_origin_tm = cg_origin_tm @ tm([0, 0, 0, 0, cg_origin_rpy[1], 0])\n                #cg_origin_rpy[0], cg_origin_rpy[1], cg_origin_rpy[2]\n                cg_origin_tm = cg_origin_tm @ tm([0, 0, 0, 0, 0, cg_origin_rpy[2]])"),
+    dict(id="urdf_default_axis_z", file=ARM, props=["C13"], desc="URDF default axis (0,0,1) instead of (1,0,0)",
+         old="        new_element.axis = np.array([1.0, 0.0, 0.0])", new="        new_element.axis = np.array([0.0, 0.0, 1.0])"),
+    dict(id="urdf_limits_swapped", file=ARM, props=["C13"], desc="URDF upper limit read from 'lower'",
+         old="                new_element.joint_limits[1] = child.get('upper')", new="                new_element.joint_limits[1] = child.get('lower')"),
+    # ---- C09 - C11 (sp) ---------------------------------------------------------------------------------------------
+    dict(id="sp_ik_stale_lengths", file=SP, props=["C09", "C10"], desc="_IKHelper returns lengths but does not store them",
+         old="        self.lengths, self._bottom_joints_space, self._top_joints_space = fmr.SPIKinSpace(",
+         new="        _unused, self._bottom_joints_space, self._top_joints_space = fmr.SPIKinSpace("),
+    dict(id="sp_move_keeps_top", file=SP, props=["C10", "C09"], desc="move() computes the relative transform after replacing the base",
+         old="        self._current_plate_transform_local = fsr.globalToLocal(self.getBottomT(), self.getTopT())\n        self._base_pos_global = new_pos.copy()\n",
+         new="        self._base_pos_global = new_pos.copy()\n        self._current_plate_transform_local = fsr.globalToLocal(self.getBottomT(), self.getTopT())\n"),
+    dict(id="sp_leglimit_only_min", file=SP, props=["C10"], desc="_legLengthConstraint forgets the upper limit",
+         old="        if(np.any(self.lengths < self.leg_ext_min) or np.any(self.lengths > self.leg_ext_max)):", new="        if(np.any(self.lengths < self.leg_ext_min)):"),
+    dict(id="sp_invjac_uses_top_joint_wrong", file=SP, props=["C11"], desc="inverseJacobian moment arm taken from the plate origin instead of the joint",
+         old="            qi = self._bottom_joints_space[:, i]\n", new="            qi = self._bottom_joints_space[:, i] - self.getBottomT()[0:3].flatten()\n"),
+    dict(id="sp_carrymass_skips_top_plate", file=SP, props=["C11"], desc="carryMassCalc forgets the top plate weight",
+         old="        wrench = wrench + fsr.makeWrench(self.getTopT(),\n            self._top_plate_mass, self.grav)\n        \n", new="        \n"),
+    dict(id="sp_sumwrench_at_bottom_joint", file=SP, props=["C11"], desc="sumActuatorWrenches sign of the unit vector flipped",
+         old="            unit_vector = fmr.Normalize(self._bottom_joints_space[:, i]-self._top_joints_space[:, i])", new="            unit_vector = fmr.Normalize(self._top_joints_space[:, i]-self._bottom_joints_space[:, i])"),
+    # ---- C15 / C16 ---------------------------------------------------------------------------------------------------
     dict(id="obstruction_drop_axis", file=PP, props=["C15"], desc="obstruction: delete the x-cross-z separating-axis test",
          old="""            if (abs(midpoint_ab[0] * L[2] - midpoint_ab[2] * L[0]) >
                 (extents[0] * abs_obstruct[2] + extents[2] * abs_obstruct[0])):
@@ -20,6 +122,75 @@ MUTANTS = [
 """, new=""),
     dict(id="obstruction_strict", file=PP, props=["C15"], desc="obstruction: '>' -> '>=' on one slab test (touching no longer counts)",
          old="            if abs(midpoint_ab[1]) > extents[1] + abs_obstruct[1]:", new="            if abs(midpoint_ab[1]) >= extents[1] + abs_obstruct[1]:"),
-    dict(id="obstruction_first_only", file=PP, props=["C15"], desc="obstruction: returns after the first box",
-         old="            return True\n        return False\n\n    def armObstruction", new="            return True\n            \n        return False\n\n    def armObstruction"),
+    dict(id="obstruction_first_only", file=PP, props=["C15", "C16"], desc="obstruction: gives up after the first box",
+         old="                (extents[0] * abs_obstruct[1] + extents[1] * abs_obstruct[0])):\n                continue\n            return True",
+         new="                (extents[0] * abs_obstruct[1] + extents[1] * abs_obstruct[0])):\n                return False\n            return True"),
+    dict(id="rrt_skip_collision_in_rewire", file=PP, props=["C16"], desc="choose-parent loop ignores the collision detector",
+         old="                        nearest[j].object.getCost() < new_node.cost and not\n                        collisionDetector(new_node, nearest[j].object)):", new="                        nearest[j].object.getCost() < new_node.cost):"),
+    dict(id="rrt_max_distance_ignored", file=PP, props=["C16"], desc="acceptance loop ignores the maximum distance",
+         old="            while (dist > self.maximum_distance or\n                    dist < self.minimum_distance or", new="            while (dist < self.minimum_distance or"),
+    dict(id="rrt_cost_without_parent", file=PP, props=["C16"], desc="rewired node keeps the old cost",
+         old="                    new_node.cost = (distanceFunction(\n                            new_node.getPosition(), nearest[j].object.getPosition()) +\n                            nearest[j].object.getCost())\n                    new_node.setParent(nearest[j].object)",
+         new="                    new_node.setParent(nearest[j].object)"),
+    # ---- C18 ---------------------------------------------------------------------------------------------------------
+    dict(id="lookat_x_axis", file=FG, props=["C18"], desc="lookAt builds the frame with x and y swapped",
+         old="    R2[0:3, 0:3] = np.array([xax, yax, zax]).T\n    R2[0:3, 3] = va\n    try:", new="    R2[0:3, 0:3] = np.array([yax, xax, zax]).T\n    R2[0:3, 3] = va\n    try:"),
+    dict(id="ikpath_offbyone", file=FG, props=["C18"], desc="IKPath divides by steps instead of steps-1",
+         old="    delta = (goal.gTAA() - initial.gTAA())/(steps - 1)", new="    delta = (goal.gTAA() - initial.gTAA())/(steps)"),
+    dict(id="anglemod_array_only_first", file=BH, props=["C18"], desc="angleMod on arrays wraps with 2*pi but only when positive",
+         old="    for i in range(np.size(rad)):\n        if abs(rad[i]) > 2 * np.pi:", new="    for i in range(np.size(rad)):\n        if rad[i] > 2 * np.pi:"),
+    dict(id="arcgap_linear", file=FG, props=["C18"], desc="closeArcGap composes on the wrong side",
+         old="    xf = origin_point @ TAAtoTM(return_transform)\n", new="    xf = tm(TAAtoTM(return_transform)) @ origin_point\n"),
+    # ---- C19 ---------------------------------------------------------------------------------------------------------
+    dict(id="comms_forward_rule_twice", file=CC, props=["C19"], desc="setForwardData appends the destination even when already present",
+         old="            if output_com not in self.forwarding[input_name]:\n                self.forwarding[input_name].append(output_com)\n                return True\n            return False",
+         new="            self.forwarding[input_name].append(output_com)\n            return True"),
+    dict(id="comms_delete_reports_true", file=CC, props=["C19"], desc="deleteForwardingRule reports success for a rule that does not exist",
+         old="            self.forwarding[input_name].remove(output_com)\n            return True\n        return False", new="            self.forwarding[input_name].remove(output_com)\n            return True\n        return input_name in self.forwarding"),
+    dict(id="comms_spin_source_twice", file=CC, props=["C19"], desc="_single_spin reads a source twice when the endpoint also has a sink",
+         old="            if name in self.output_functions or name in self.forwarding:\n                self.getData(name)",
+         new="            if name in self.output_functions or name in self.forwarding:\n                self.getData(name)\n            if name in self.output_functions and name in self.input_functions:\n                this_com.sendData(self.input_functions[name][0]())"),
+    # ---- C20 ---------------------------------------------------------------------------------------------------------
+    dict(id="disp_nd_minus_one", file=DS, props=["C20"], desc="dispa formats 3-D blocks with one decimal fewer",
+         old="            strr += dispa(matrix[i,], nd = nd, new = False)\n        strr += (t_bl + t_bar + \"═ \" + title + \" END ═\" + t_bar + \"╝\\n\")\n\n    #Prints 4D",
+         new="            strr += dispa(matrix[i,], nd = max(nd - 1, 0), new = False)\n        strr += (t_bl + t_bar + \"═ \" + title + \" END ═\" + t_bar + \"╝\\n\")\n\n    #Prints 4D"),
+    dict(id="disp_drops_last_row_4d", file=DS, props=["C20"], desc="4-D arrays: last block skipped",
+         old="        for i in range(shape[0]):\n            strr += dispa(matrix[i,], nd = nd, title = title + \" d:\" + str(i), pdims = pdims, new = False)",
+         new="        for i in range(shape[0] - (1 if shape[0] > 3 else 0)):\n            strr += dispa(matrix[i,], nd = nd, title = title + \" d:\" + str(i), pdims = pdims, new = False)"),
+    dict(id="disp_noprint_prints_lists", file=DS, props=["C20"], desc="disp prints even with noprint for LaTeX mode",
+         old="    if not noprint:\n        print(matstr)", new="    if not noprint or mode != 0:\n        print(matstr)"),
+    dict(id="disp_empty_list_crash", file=DS, props=["C20"], desc="printTFlist divides by the number of transforms",
+         old="    nTF = len(matrix)\n    title_len = len(title)\n", new="    nTF = len(matrix)\n    title_len = len(title) // max(nTF, 0) if nTF == 0 else len(title)\n"),
+    # ---- C17 ---------------------------------------------------------------------------------------------------------
+    dict(id="fkjoint_slice_oob", file=ARM, props=["C17"], desc="FKJoint passes one screw column fewer than angles",
+         old="            self.screw_list[0:6, 0:i+1], theta[0:i+1]))\n        return end_effector_pos\n\n    #Converted to python - Liam\n    def IK",
+         new="            self.screw_list[0:6, 0:i], theta[0:i+1]))\n        return end_effector_pos\n\n    #Converted to python - Liam\n    def IK"),
+    dict(id="spik_loop_7", file=FH, props=["C17"], desc="SPIKinSpace norm reads element 3 of a 3-vector via Norm6",
+         old="        t_len = Norm(top_joint_locations[0:3, i] - bottom_joint_locations[0:3, i])", new="        t_len = Norm6(np.concatenate((top_joint_locations[0:3, i] - bottom_joint_locations[0:3, i], np.zeros(2))))"),
 ]
+
+# re-introduce every repaired defect
+REVERTS = [
+    ("C01", "fix: MatrixLog3/MatrixLog6 lose"), ("C04", "fix: tm([position, rotation])"), ("C12", "fix: Screw/Wrench 'a - s'"),
+    ("C18", "fix: mirror() reflected"), ("C18", "fix: tmInterpMidpoint halved"), ("C18", "fix: tm.angleMod wrapped"),
+    ("C02", "fix: ForwardDynamicsTrajectory used"), ("C02", "fix: SimulateControl plotted"), ("C02", "fix: ProjectToSO3 raised"),
+    ("C02", "fix: Normalize divided"), ("C05", "fix: Arm() transformed"), ("C05", "fix: joint home frames"),
+    ("C05", "fix: setArbitraryHome/restoreOriginalEE"), ("C06", "fix: jacobianBody kept"), ("C05", "fix: Arm.move() silently"),
+    ("C07", "fix: Arm IK compared"), ("C05", "fix: Arm.IK(protect=True)"), ("C05", "fix: getJointTransforms() clamped"),
+    ("C06", "fix: numericalJacobian returned"), ("C08", "fix: inverseDynamicsEMR unpacked"), ("C13", "fix: loadArmFromURDF crashed"),
+    ("C19", "fix: Comms.getData forwarded"), ("C07", "fix: IKFree reported"), ("C17", "fix: FKLink passed"),
+    ("C09", "fix: spinCustom left the Newton"), ("C09", "fix: SPFKinSpaceR stopped"), ("C09", "fix: SP fsolve forward"),
+    ("C10", "fix: spinCustom deformed"), ("C10", "fix: SP force/Jacobian queries"), ("C10", "fix: the two SP forward-kinematics"),
+    ("C10", "fix: SP.FK kept"), ("C05", "fix: Arm frame bookkeeping"), ("C16", "fix: progressBar divided"),
+    ("C14", "fix: tm.gPos() returned"), ("C14", "fix: all default-constructed Screws"),
+]
+for prop, subj in REVERTS:
+    MUTANTS.append(dict(id="revert:" + subj[5:40].strip().replace(" ", "_"), revert=subj, props=[prop], desc="re-introduces the defect repaired by '%s...'" % subj))
+
+# seeded changes written by independent sub-agents
+_here = os.path.dirname(os.path.dirname(os.path.dirname(os.path.abspath(__file__))))
+for meta in sorted(glob.glob(os.path.join(_here, "seeded", "*", "meta.json"))):
+    m = json.load(open(meta))
+    d = os.path.dirname(meta)
+    MUTANTS.append(dict(id="seeded:" + os.path.basename(d), patch=os.path.join(d, "patch.diff"), props=m.get("checks", [m["property"]]),
+                        desc="sub-agent: " + m.get("summary", "")))
